@@ -218,14 +218,28 @@ FillOrd == st.ord[Last.id]
 \* one fill, reference deltas: a buy credits qty(1-fee) of base (its cost was reserved at submission), a sell
 \* debits what is sold (never more than held) and credits qty*price*(1-fee) of quote; when the position closes
 \* and the strategy layer cancels what rests, the reserved quote of the cancelled buys comes back
-CashStep ==
-  [][IsFill =>
-       LET o == FillOrd  s == o.sym
-           sold == Min2(o.q, st.base[s])
-           back == ReservedQuote(st) - ReservedQuote(st') - (IF o.side = "buy" THEN o.q * o.p * K ELSE 0)
-       IN /\ st'.base[s] = (IF o.side = "buy" THEN st.base[s] + (o.q * KF) \div K ELSE st.base[s] - sold)
-          /\ st'.quote = st.quote + (IF o.side = "buy" THEN 0 ELSE sold * o.p * KF) + back
-          /\ \A x \in Syms \ {s} : st'.base[x] = st.base[x]]_vars
+CashOK(S, id, S1) ==
+  LET o == S.ord[id]  s == o.sym
+      sold == Min2(o.q, S.base[s])
+      back == ReservedQuote(S) - ReservedQuote(S1) - (IF o.side = "buy" THEN o.q * o.p * K ELSE 0)
+  IN /\ S1.base[s] = (IF o.side = "buy" THEN S.base[s] + (o.q * KF) \div K ELSE S.base[s] - sold)
+     /\ S1.quote = S.quote + (IF o.side = "buy" THEN 0 ELSE sold * o.p * KF) + back
+     /\ S1.pos[s] = S1.base[s]
+     /\ \A x \in Syms \ {s} : S1.base[x] = S.base[x]
+CashStep == [][IsFill => CashOK(st, Last.id, st')]_vars
+\* pending market orders flushed together: the per-fill statement on every intermediate state of the flush
+RECURSIVE FillsOK(_, _)
+FillsOK(S, ids) ==
+  IF ids = <<>> THEN TRUE
+  ELSE LET id == Head(ids)  S1 == ExecOneQ(S, id, QuirkDoubleRelease, QuirkFlip)
+       IN /\ IF S.ord[id].st = "A" THEN CashOK(S, id, S1)
+             ELSE <<S1.quote, S1.base, S1.pos, S1.ord, S1.trades, S1.temp>> = <<S.quote, S.base, S.pos, S.ord, S.trades, S.temp>>
+          /\ FillsOK(S1, Tail(ids))
+FlushPerFill ==
+  [][Last.op = "flush" =>
+        /\ FillsOK(Z(st), st.pending)
+        /\ LET F == ExecSeqQ(Z(st), st.pending, QuirkDoubleRelease, QuirkFlip) IN
+             <<st'.quote, st'.base, st'.pos, st'.ord>> = <<F.quote, F.base, F.pos, F.ord>>]_vars
 ReserveRelease ==
   [][/\ (Last.op = "submit" /\ ~st'.rej) =>
             st'.quote = st.quote - (IF Last.side = "buy" THEN Last.q * Last.p * K ELSE 0) /\ st'.base = st.base
